@@ -40,8 +40,8 @@ impl Prop for C08 {
     }
     fn runs(&self, tier: Tier) -> u64 {
         match tier {
-            Tier::Quick => 40_000,
-            Tier::Thorough => 1_500_000,
+            Tier::Quick => 400_000,
+            Tier::Thorough => 8_000_000,
         }
     }
     fn generate(&self, i: u64, r: &mut Rng, tier: Tier) -> Scenario {
